@@ -152,45 +152,52 @@ fn _contains_msg_sender_conditions(function_definition: &Box<FunctionDefinition>
         function_definition.body.clone().unwrap().into(),
     );
 
+    //The arguments of the selfdestruct calls themselves are not access control
+    let mut selfdestruct_locations: Vec<Loc> = vec![];
+    for node in function_body_nodes.clone() {
+        if let Some(Expression::FunctionCall(loc, box_identifier, _)) = node.expression() {
+            if _is_selfdestruct(box_identifier) {
+                selfdestruct_locations.push(loc);
+            }
+        }
+    }
+
     for node in function_body_nodes {
         //We can use unwrap because Target::MemberAccess is an expression
         let expression = node.expression().unwrap();
 
-        if let Expression::FunctionCall(_, box_identifier, function_args) = expression {
+        if let Expression::FunctionCall(loc, box_identifier, function_args) = expression {
+            //A type conversion (ie. `payable(msg.sender)` or `address(msg.sender)`) is not a check of the sender
+            if let Expression::Type(_, _) = *box_identifier {
+                continue;
+            }
+
             //Skip if the function call is a selfdestruct, as it does not affect this vulnerability
             if _is_selfdestruct(box_identifier) {
                 continue;
             }
 
+            //Skip function calls that are nested in the arguments of a selfdestruct call
+            if selfdestruct_locations.iter().any(|selfdestruct_loc| {
+                selfdestruct_loc.start() <= loc.start() && loc.end() <= selfdestruct_loc.end()
+            }) {
+                continue;
+            }
+
             for expression in function_args {
                 match expression {
-                    //Match for both `function(msg.sender == owner)` or `function(msg.sender != owner)`
-                    Expression::Equal(_, box_expression, _)
-                    | Expression::NotEqual(_, box_expression, _) => {
-                        if let Expression::MemberAccess(_, box_expression, identifier) =
-                            *box_expression
-                        {
-                            //If the member access identifier is "msg.sender"
-                            let Identifier { name: right, .. } = identifier;
-                            if let Expression::Variable(Identifier { name: left, .. }) =
-                                *box_expression
-                            {
-                                if left == "msg" && right == "sender" {
-                                    return true;
-                                }
-                            }
+                    //Match for both `function(msg.sender == owner)` or `function(msg.sender != owner)`, with msg.sender on either side
+                    Expression::Equal(_, box_expression, box_expression_1)
+                    | Expression::NotEqual(_, box_expression, box_expression_1) => {
+                        if _is_msg_sender(*box_expression) || _is_msg_sender(*box_expression_1) {
+                            return true;
                         }
                     }
 
                     //Match for `function(msg.sender)`
-                    Expression::MemberAccess(_, box_expression, identifier) => {
-                        //If the member access identifier is "msg.sender"
-                        let Identifier { name: right, .. } = identifier;
-                        if let Expression::Variable(Identifier { name: left, .. }) = *box_expression
-                        {
-                            if left == "msg" && right == "sender" {
-                                return true;
-                            }
+                    Expression::MemberAccess(_, _, _) => {
+                        if _is_msg_sender(expression) {
+                            return true;
                         }
                     }
 
@@ -201,6 +208,18 @@ fn _contains_msg_sender_conditions(function_definition: &Box<FunctionDefinition>
     }
 
     return false;
+}
+
+fn _is_msg_sender(expression: Expression) -> bool {
+    if let Expression::MemberAccess(_, box_expression, identifier) = expression {
+        //If the member access identifier is "msg.sender"
+        let Identifier { name: right, .. } = identifier;
+        if let Expression::Variable(Identifier { name: left, .. }) = *box_expression {
+            return left == "msg" && right == "sender";
+        }
+    }
+
+    false
 }
 
 #[test]
